@@ -266,7 +266,7 @@ class W(object):
         self.sysof = {"basic": self.BASIC, "projc": self.PROJC, "jacob": self.JACOB}
         self.EQ, self.NE = K["RLC_EQ"], K["RLC_NE"]
         self.confined = load_confined()
-        self.light = 8 if ctx.cfg.endswith("x") else 1
+        self.light = 30 if ctx.cfg.endswith("x") else 1
         self.not_built = set()
         self.skipped_confined = 0
         self.info = {}
@@ -1170,7 +1170,7 @@ class W(object):
                     continue
                 if bi in (1, 3, 4) and rng.random() < 0.7:
                     continue
-                if self.light > 1 and rng.random() < 0.8:
+                if self.light > 1 and rng.random() < 0.88:
                     continue
                 self.mul_group(cv, d, P, k, fns, tabs)
             N = self.n(60, 1500) if bi != 4 else self.n(6, 100)
@@ -1493,7 +1493,7 @@ class W(object):
                     self.sim_group(cv, dP, P, k, dQ, Q, m, fns if dP == 1 else two)
         for k in ds:
             idx += 1
-            if ctx.mine(idx):
+            if ctx.mine(idx) and (self.light == 1 or rng.random() < 0.15):
                 dP, P, dQ, Q = self.pick_pair(cv)
                 m = self.random_scalar(cv)
                 if rng.random() < 0.5:
@@ -1508,7 +1508,7 @@ class W(object):
         if self.has("ep_mul_sim_lot"):
             for cnt in range(0, 41):
                 idx += 1
-                if ctx.mine(idx):
+                if ctx.mine(idx) and (self.light == 1 or cnt % 4 == 0 or cnt in (10, 11)):
                     self.sim_lot(cv, cnt, "in" if cnt % 3 == 0 else ("short" if cnt % 3 == 1 else "hostile"))
             # the result aliasing an input point, on both sides of the n = 10 / 11 switch to the bucket method
             for cnt in (1, 2, 3, 10, 11, 12, 16, 20, 33):
@@ -1522,7 +1522,7 @@ class W(object):
         if self.has("ep_mul_sim_dig"):
             for cnt in range(1, 41):
                 idx += 1
-                if ctx.mine(idx):
+                if ctx.mine(idx) and (self.light == 1 or cnt % 4 == 0):
                     self.sim_dig(cv, cnt)
             for cnt in (1, 2, 3, 10, 11, 20):
                 for al in ("first", "mid", "last"):
